@@ -217,7 +217,7 @@ META = dict(functions=th.TREE_FUNCTIONS + ["graphtage.json.JSONFormatter / JSONL
             files=th.TREE_FILES + ["graphtage/json.py", "graphtage/printer.py", "graphtage/formatter.py"],
             outside=["escaping of quotes / control / non-ASCII characters and documents that contain the marks themselves (json.dumps per "
                      "character is C code)", "multiset and plist renderings"])
-REGIONS = dict(mset_duplicates=lambda w, f: th.has_duplicate_members(w))
+REGIONS = dict(mset_duplicates=lambda w, f: th.matcher_collapse_region(w))
 
 
 def bounds_text(tier):
